@@ -544,11 +544,15 @@ fn complete_snap(snap: &Value, books: &Value) -> (Value, Value) {
 fn trace_world(rule: Rule, world: &Value) -> Value {
     let mut chg = serde_json::Map::new();
     let mut cut = serde_json::Map::new();
+    let mut events = serde_json::Map::new();
     for (n, _, _) in INSTR {
         chg.insert(n.to_string(), world[n]["chg"].clone());
         cut.insert(n.to_string(), world[n]["cut"].clone());
+        events.insert(n.to_string(), world[n]["events"].clone());
     }
-    json!({"rule": rule.name(), "chg": chg, "cut": cut})
+    // (`events` = the payload contents actually sent; the trace specification recomputes them from
+    //  chg / cut and ignores this field - it only serves replays)
+    json!({"rule": rule.name(), "chg": chg, "cut": cut, "events": events})
 }
 
 #[derive(Default)]
@@ -598,6 +602,9 @@ fn run(args: &Args) {
                         verdict = fail(an, pre);
                         break;
                     }
+                    if step.get("unchecked").is_some() {
+                        continue;
+                    }
                     // the books the consumer holds are the snapshots; sequencers start at the snapshot ids
                     let expect_sq: serde_json::Map<String, Value> =
                         INSTR.iter().map(|(nm, _, _)| (nm.to_string(), json!({"processed": 0, "lastId": i(&snap, nm)}))).collect();
@@ -625,6 +632,9 @@ fn run(args: &Args) {
                         }
                         "Error" => counts.error += 1,
                         _ => {}
+                    }
+                    if step.get("out").is_none() {
+                        continue; // replay reconstructed from a trace: the trace validation decides
                     }
                     if out != s(step, "out") {
                         verdict = fail(format!("outcome: expected {}, got {}", s(step, "out"), out), pre);
@@ -780,7 +790,7 @@ fn random(args: &Args) {
             .collect();
         let mut world = json!({});
         for (n, e) in &evs {
-            world[*n] = json!({"chg": e.chg, "cut": e.cut});
+            world[*n] = json!({"chg": e.chg, "cut": e.cut, "events": e.events});
         }
         let mut bench = Bench::new(rule, un, &mode);
         let mut chain: BTreeMap<&str, usize> = Default::default();
@@ -854,8 +864,12 @@ fn random(args: &Args) {
     println!("{sm}");
 }
 
-#[tokio::main(flavor = "current_thread", start_paused = true)]
-async fn main() {
+fn main() {
+    // The driver polls the real stream pipeline by hand (`now_or_never`), outside of any tokio task:
+    // inside a task tokio's cooperative budget would make its channels report Pending spuriously.
+    // The runtime is only entered so that timers (reconnect backoff) would have a (paused) clock.
+    let rt = tokio::runtime::Builder::new_current_thread().enable_time().start_paused(true).build().expect("runtime");
+    let _guard = rt.enter();
     let args = Args::parse();
     match args.cmd.as_str() {
         "run" => run(&args),
